@@ -38,6 +38,8 @@ Fixpoint with_table_at {X : Type} (t : tbl) (path : list key) (dotted : bool)
       end
     | Some (_, IValue _) => CErr ExtendWrongType
     | Some (_, IAot ts sp) =>
+      (* a dotted key may not reach through an array of tables (i + 1 < path.len()) *)
+      if dotted && (match ptl with [] => false | _ => true end) then CErr DuplicateKey else
       match rev ts with
       | [] => CPanic P_aot_empty
       | last :: rinit =>
